@@ -58,15 +58,15 @@ def main():
         shutil.copy(os.path.join(src, "notes.md"), os.path.join(out, "agent_notes.md"))
     meta["checks"] = {}
     if meta["confirmed"]:
-        rc, o = sh("git -C /repo status --short")
-        if o.strip():
-            print("refusing: /repo has uncommitted changes")
-            sys.exit(3)
-        rc, o = sh("git -C /repo apply %s" % patch)
+        # the checks are pointed (VERIF_REPO) at a scratch copy of /repo's working tree with the change applied, so that
+        # several seeds can be evaluated while /repo itself stays untouched; same code path as `git -C /repo apply` + ./check
+        copy = "/tmp/seedrepo-%s" % name
+        sh("rm -rf %s; rsync -a --exclude target /repo/ %s/" % (copy, copy))
+        rc, o = sh("git apply %s" % patch, cwd=copy)
         try:
             for c in checks:
                 t0 = time.time()
-                rcc, oc = sh("./check %s --tier quick 2>&1 | grep -vE '^    '" % c, cwd=VERIF, timeout=5400)
+                rcc, oc = sh("VERIF_REPO=%s VERIF_REPLAY_DIR=%s VERIF_EVIDENCE_DIR=/tmp/seedevidence ./check %s --tier quick 2>&1 | grep -vE '^    '" % (copy, os.path.join(out, "replay"), c), cwd=VERIF, timeout=5400)
                 viol = re.findall(r"^VIOLATION.*$", oc, re.M)
                 failed = re.findall(r"^obligation failed: (.*)$", oc, re.M)
                 und = re.findall(r"^UNDECIDED.*$", oc, re.M)
@@ -75,8 +75,7 @@ def main():
                                      "wall_s": round(time.time() - t0)}
                 print(name, c, "CAUGHT" if viol else "MISSED", failed[:4], last)
         finally:
-            sh("git -C /repo checkout -- .")
-            sh("rm -f %s/replay/*.json" % VERIF)
+            sh("rm -rf %s" % copy)
     else:
         print(name, "NOT CONFIRMED", {k: meta.get(k) for k in ("suite_green_with_change", "demo_passes_without", "demo_fails_with")})
     json.dump(meta, open(os.path.join(out, "meta.json"), "w"), indent=1)
